@@ -332,7 +332,8 @@ def install():
     import pedal.sandbox.timeout as tomod
     IT = tomod.InterruptableThread
     _orig.update(run=IT.run, start=IT.start, join=IT.join, is_alive=IT.is_alive)
-    WATCH.update({sbmod.__file__, tomod.__file__})
+    import pedal.sandbox.mocked as mkmod
+    WATCH.update({sbmod.__file__, tomod.__file__, mkmod.__file__})    # mocked.py: the import hook writes sys.modules
     for p in WATCH:
         SHARED[p] = shared_lines(p)
 
